@@ -3,6 +3,7 @@
 UW_BIND = '_ZN6asmjit5v1_2110CodeHolder10bind_labelERKNS0_5LabelEjm.2:5'
 UW_EXPR = '_ZN6asmjit5v1_21L30CodeHolder_evaluate_expressionEPNS0_10CodeHolderEPNS0_10ExpressionEPm:3'   # recursion depth of the expression evaluator
 UW_EMB = UW_BIND + ',' + UW_EXPR
+FS = ['--max-field-sensitivity-array-size', '128']
 CH = ['asmjit/core/codeholder.cpp', 'asmjit/core/codewriter.cpp']
 UNITS = [
     Unit('fixup', harness=['h_fixup.cpp'], repo_units=CH),
@@ -16,11 +17,11 @@ HARNESSES += [Harness('fixup', 'h_bind_twice', unwind=9, bounds='label bound at 
 HARNESSES += [Harness('fixup', 'h_resolve_%d' % k, unwind=49, bounds=str(k) + B_FIX + 'two bound labels at any 2^64 offset in either section; both section offsets all 2^64 (overflow of section + label inside)', mem_gb=6, timeout=900,
                       tiers=('quick', 'thorough') if k < 3 else ('thorough',)) for k in (0, 1, 2, 3)]
 B_EMB = 'x86-32 / x86-64; emitting section 0/1; label bound before the reference (section 0/1, offset all 2^64) or bound afterwards anywhere; section offsets and base address all 2^64; 32 symbolic bytes per section'
-HARNESSES += [Harness('embed', 'h_embed_label_%d' % n, unwind=33, bounds='embed_label data size %d (0 = register size); ' % n + B_EMB, mem_gb=4, timeout=600, unwindset=UW_EMB) for n in (0, 1, 2, 4, 8, 3, 16)]
-HARNESSES += [Harness('embed', 'h_embed_label_invalid', unwind=33, bounds='label id any value beyond the table', mem_gb=4, timeout=600, unwindset=UW_EMB)]
-HARNESSES += [Harness('embed', 'h_embed_delta_%d' % n, unwind=33, bounds='embed_label_delta data size %d (0 = register size); both labels independently bound before or after; ' % n + B_EMB, mem_gb=4, timeout=600, unwindset=UW_EMB) for n in (0, 1, 2, 4, 8)]
-HARNESSES += [Harness('embed', 'h_embed_delta_%d_kf_C03a' % n, unwind=33, known='C03a', bounds='as h_embed_delta_%d, confined to: both labels already bound to one section and the difference does not fit the field' % n, mem_gb=4, timeout=600, unwindset=UW_EMB) for n in (1, 4)]
-HARNESSES += [Harness('embed', 'h_expression_' + k, unwind=33, bounds='expression shape ' + k + ' (c = constant, l = label, nested = depth 2); operators add/sub/mul/sll/srl/sra and an invalid one; constants, label offset, section offsets all 2^64', mem_gb=4, timeout=600, unwindset=UW_EMB) for k in ('cc', 'lc', 'nested_l', 'nested_r')]
+HARNESSES += [Harness('embed', 'h_embed_label_%d' % n, unwind=33, bounds='embed_label data size %d (0 = register size); ' % n + B_EMB, mem_gb=4, timeout=600, unwindset=UW_EMB, flags=FS) for n in (0, 1, 2, 4, 8, 3, 16)]
+HARNESSES += [Harness('embed', 'h_embed_label_invalid', unwind=33, bounds='label id any value beyond the table', mem_gb=4, timeout=600, unwindset=UW_EMB, flags=FS)]
+HARNESSES += [Harness('embed', 'h_embed_delta_%d' % n, unwind=33, bounds='embed_label_delta data size %d (0 = register size); both labels independently bound before or after; ' % n + B_EMB, mem_gb=4, timeout=600, unwindset=UW_EMB, flags=FS) for n in (0, 1, 2, 4, 8)]
+HARNESSES += [Harness('embed', 'h_embed_delta_%d_kf_C03a' % n, unwind=33, known='C03a', bounds='as h_embed_delta_%d, confined to: both labels already bound to one section and the difference does not fit the field' % n, mem_gb=4, timeout=600, unwindset=UW_EMB, flags=FS) for n in (1, 4)]
+HARNESSES += [Harness('embed', 'h_expression_' + k, unwind=33, bounds='expression shape ' + k + ' (c = constant, l = label, nested = depth 2); operators add/sub/mul/sll/srl/sra and an invalid one; constants, label offset, section offsets all 2^64', mem_gb=4, timeout=600, unwindset=UW_EMB, flags=FS) for k in ('cc', 'lc', 'nested_l', 'nested_r')]
 EXPLANATION = 'bounded symbolic execution (CBMC) of the real CodeHolder::bind_label / resolve_cross_section_fixups / new_fixup / relocate_to_base, BaseAssembler::embed_label / embed_label_delta and the reference sites of x86::Assembler::_emit / a64::Assembler::_emit compiled from /repo; the oracle decodes the patched bytes the way the CPU does (reference decoders in the harness)'
 OUTSIDE = ['more than 3 pending fixups per label (the list code is uniform in the length)', 'more than 2 sections', 'buffer growth during emission (C15)', 'Thumb/A32 formats (no A32 assembler in this tree)']
 ASSUMPTIONS = ['emitter.cpp is not linked: BaseEmitter::_report_error (counter) and BaseEmitter::is_label_valid (same one-line test) are defined in the harness; the assembler object is attached by construction',
